@@ -303,12 +303,13 @@ _ADD2 = {
     'C07': dict(technique='; evaluate_exact, potential, evaluate_vector regenerated from source and proved equal to the model (Props/SLRestTie.lean)'),
     'C17': dict(technique='; all of bilform_matrix (defaults, threshold, key text, load/save, serial/pool) regenerated from source and proved equal '
                 'to the assembly model (Props/SLRestTie.lean gen_bilform_matrix_*), generated twins incl. cache histories'),
-    'C16': dict(technique='; src/initial_mesh.py regenerated from source (translate/quadtreegen.py); tie theorems for vertex_from_coords, the '
-                'boundary scan, element shapes and shipped meshes; refine only relative to RefineSim (not proved) + generated twins on every request',
-                text=' The tie of the regenerated refine to the hand model is PARTIAL: Props/QuadtreeTie.lean proves the loop structure of '
-                'refine_msh_bdr / uniform_refine and the C16 results for the generated functions relative to RefineSim (one generated refine '
-                'simulates one model refine under a coherence invariant of the dictionaries), which is not established; it is covered by generated '
-                'twins on every request and kernel-evaluated runs.'),
+    'C16': dict(technique='; src/initial_mesh.py regenerated from source (translate/quadtreegen.py) and proved to simulate the hand model '
+                '(Props/QuadtreeTie.lean, Props/QuadtreeSim.lean: RefineSim for the coherence invariant of the three dictionaries) + generated '
+                'twins on every request',
+                text=' The tie of the regenerated initial_mesh.py to the hand model is complete: Props/QuadtreeSim.lean proves that one generated '
+                'refine on any element of a coherent state gives the same abstract mesh or the same assertion as the model and restores the '
+                'invariant (gen_refine_eq); gen_refine_msh_bdr_eq, gen_uniform_refine_eq, gen_refine_ok, gen_qt_inv, gen_bdr_target hold for all '
+                'states reachable from the generated UnitSquare() / LShape(). Trusted: the translator\'s object model.'),
     'C09': dict(technique='; the logic of src/error_estimator.py regenerated from source (translate/estimatorgen.py) and proved equal to the model '
                 '(Props/EstimatorTie.lean)', text=' space_patch_spec_full: the complete case split over all neighbouring pairs (definition, or '
                 'same-piece seam pair = complementary arc, finding F5), also for the generated code.'),
